@@ -320,7 +320,16 @@ impl Matcher {
                 day_end += 1;
             }
 
-            // Apply corporate actions for the day (before same-day buys)
+            // Apply corporate actions for the day (before same-day buys). Accumulations go
+            // first so that the S122 test of a same-day capital return sees the same
+            // expenditure whatever the order of the day's lines.
+            for tx in &transactions[i..day_end] {
+                if let Operation::Accumulation { total_value, .. } = &tx.operation
+                    && let Some(ledger) = ledgers.get_mut(&tx.ticker)
+                {
+                    ledger.apply_cost_adjustment(*total_value);
+                }
+            }
             for tx in &transactions[i..day_end] {
                 match &tx.operation {
                     Operation::CapReturn {
@@ -343,11 +352,6 @@ impl Matcher {
                                 )));
                             }
                             ledger.apply_cost_adjustment(-net_value);
-                        }
-                    }
-                    Operation::Accumulation { total_value, .. } => {
-                        if let Some(ledger) = ledgers.get_mut(&tx.ticker) {
-                            ledger.apply_cost_adjustment(*total_value);
                         }
                     }
                     _ => {}
